@@ -1,1 +1,10 @@
 pub trait SpawnableService<S: Spawner<Self>>: Service {}
+// service.rs: `impl<A: Service> SpawnableService<DefaultSpawner> for A` (the runtime feature selects the spawner type; proved per runtime in units spawner_*)
+pub struct DefaultSpawner;
+impl<A: Actor> Spawner<A> for DefaultSpawner {
+    uninterp spec fn drop_is_detach() -> bool;
+    #[verifier::external_body] fn spawn_actor(future: LoopFuture<A>, Tracked(w): Tracked<&mut World>) -> (h: ActorHandle<A>) { unimplemented!() }
+    #[verifier::external_body] fn spawn_future(future: ClosureObj, Tracked(w): Tracked<&mut World>) { unimplemented!() }
+    #[verifier::external_body] fn sleep(duration: u64, Tracked(w): Tracked<&mut World>) { unimplemented!() }
+}
+impl<A: Service> SpawnableService<DefaultSpawner> for A {}
